@@ -159,6 +159,8 @@ pub struct St {
     pub viol: Vec<(u8, String, String, String)>,
     /// event indices that led here (not part of the key)
     pub hist: Vec<u16>,
+    /// return value of the last action()
+    pub last_added: bool,
     key: Arc<Vec<u8>>,
 }
 
@@ -311,6 +313,7 @@ impl Tracker {
         };
         s.real = real;
         let added = added == Added::Yes;
+        s.last_added = added;
 
         // ---------------- model step
         let mut both_slots = false;
@@ -644,7 +647,7 @@ impl Model for Tracker {
     type Action = usize;
 
     fn init_states(&self) -> Vec<St> {
-        let mut s = St { real: Airplanes::new(), model: MState::default(), now: 0, depth: 0, viol: vec![], hist: vec![], key: Arc::new(vec![]) };
+        let mut s = St { real: Airplanes::new(), model: MState::default(), now: 0, depth: 0, viol: vec![], hist: vec![], last_added: false, key: Arc::new(vec![]) };
         s.rekey();
         vec![s]
     }
@@ -676,6 +679,9 @@ impl Model for Tracker {
                         if !had.contains(&ku) {
                             if last.depth > 0 && last.model.recs.is_empty() {
                                 self.wit("reappeared_after_expiry");
+                            }
+                            if !s.last_added {
+                                s.viol.push((15, "reported-as-new".into(), "Added::Yes for an address that was not tracked".into(), "Added::No".into()));
                             }
                             if st.num_messages != 1 {
                                 s.viol.push((15, "fresh-record".into(), "count 1 after (re)appearance".into(), format!("{}", st.num_messages)));
@@ -889,7 +895,7 @@ pub fn c14(tier: Tier) -> i32 {
 pub fn c15(tier: Tier) -> i32 {
     let run = Run::new("C15", tier);
     assert!(vclock::self_test());
-    let depth = if tier.thorough() { 7 } else { 5 };
+    let depth = if tier.thorough() { 6 } else { 5 };
     let mut outs = vec![];
     for t in [10u64, 1, 0] {
         let o = explore(&run, &format!("C15/T{t}/d{depth}"), tracker(alphabet_c15(t), (35.0, -80.0), 500.0, 0, 15), depth);
